@@ -3,6 +3,7 @@ package vrt
 import (
 	"fmt"
 	"reflect"
+	"runtime"
 	"sort"
 	"unsafe"
 )
@@ -97,4 +98,13 @@ func pushPtr(x []unsafe.Pointer, p unsafe.Pointer) []unsafe.Pointer {
 	x = x[:len(x)+1]
 	x[len(x)-1] = p
 	return x
+}
+
+// SetFinalizer is the rewritten runtime.SetFinalizer: outside executions the real one, inside an
+// execution nothing (the finalizer never runs - which the language allows - instead of running on a
+// goroutine the scheduler does not control).
+func SetFinalizer(obj, finalizer any) {
+	if cur == nil && !inSetup {
+		runtime.SetFinalizer(obj, finalizer)
+	}
 }
